@@ -1,0 +1,50 @@
+//! Verification projection of `SrtlaRegistrationManager` (feature
+//! `verif-hooks`). Read-only; compiled only with the feature.
+
+use super::SrtlaRegistrationManager;
+use super::probing::ProbingState;
+
+#[derive(Clone, Debug, PartialEq, Eq)]
+pub struct RegView {
+    pub pending_reg2_idx: Option<usize>,
+    pub pending_timeout_at_ms: u64,
+    pub active_connections: usize,
+    pub has_connected: bool,
+    pub broadcast_reg2_pending: bool,
+    pub reg1_target_idx: Option<usize>,
+    pub reg1_next_send_at_ms: u64,
+    /// "not_started" | "probing" | "waiting" | "complete"
+    pub probing_state: &'static str,
+    /// (conn_idx, probe_sent_ms, rtt_ms)
+    pub probe_results: Vec<(usize, u64, Option<u64>)>,
+}
+
+impl SrtlaRegistrationManager {
+    pub fn verif_view(&self) -> RegView {
+        RegView {
+            pending_reg2_idx: self.pending_reg2_idx,
+            pending_timeout_at_ms: self.pending_timeout_at_ms,
+            active_connections: self.active_connections,
+            has_connected: self.has_connected,
+            broadcast_reg2_pending: self.broadcast_reg2_pending,
+            reg1_target_idx: self.reg1_target_idx,
+            reg1_next_send_at_ms: self.reg1_next_send_at_ms,
+            probing_state: match self.probing_state {
+                ProbingState::NotStarted => "not_started",
+                ProbingState::Probing => "probing",
+                ProbingState::WaitingForProbes => "waiting",
+                ProbingState::Complete => "complete",
+            },
+            probe_results: self
+                .probe_results
+                .iter()
+                .map(|r| (r.conn_idx, r.probe_sent_ms, r.rtt_ms))
+                .collect(),
+        }
+    }
+
+    /// The probe id carried by the REG2 probes of `start_probing`.
+    pub fn verif_probe_id(&self) -> [u8; srtla_protocol::SRTLA_ID_LEN] {
+        self.probe_id
+    }
+}
